@@ -223,6 +223,24 @@ def generate(rng, tier):
         gaps = [3] * n
         gaps[rng.randrange(1, n)] = rng.choice((16 * Q, 20 * Q, 40 * Q))
         yield from history('pause', msgs, order, ('pause', tr, ucs2, n), gaps)
+    # 3f. a long message trickling in: every gap well inside the delivery time-to-live (100 s), the whole far beyond it
+    #     (each segment renews the entry), interleaved with a short message
+    for _ in range(12 if thorough else 4):
+        n = rng.choice((6, 9, 14))
+        tr = rng.choice(transports)
+        ucs2 = rng.random() < 0.5
+        ref = {'sar': 81, 'udh8': 82, 'udh16': 8300}[tr]
+        msgs = [dict(ref=ref, pieces=mk_pieces(n, ucs2, rng, 'plain'), transport=tr, ucs2=ucs2, payload=False),
+                dict(ref=ref + 1, pieces=mk_pieces(2, False, rng, 'plain'), transport=tr, ucs2=False, payload=False)]
+        idx = list(range(n))
+        rng.shuffle(idx)
+        order = [(0, s2) for s2 in idx]
+        at = rng.randrange(1, n)
+        order.insert(at, (1, 0))
+        order.insert(at + 1, (1, 1))          # (the short message's own segments are one gap apart)
+        # (any three consecutive gaps stay below the 100 s: the short message sits between two segments of the long one)
+        gaps = [rng.choice((20 * Q, 25 * Q, 30 * Q)) for _ in order]
+        yield from history('trickle', msgs, order, ('trickle', tr, ucs2, n), gaps)
     # 4. duplicates (outside the statement; correspondence only)
     for _ in range(40 if thorough else 15):
         n = rng.randrange(2, 6)
